@@ -115,7 +115,7 @@ bool send_all(NativeSocket socket, const std::uint8_t* data, std::size_t length)
                                  static_cast<int>(length - total), 0);
 #else
         const auto sent = ::send(socket, reinterpret_cast<const char*>(data + total),
-                                 length - total, 0);
+                                 length - total, MSG_NOSIGNAL);
 #endif
         if (sent <= 0) {
             return false;
